@@ -227,7 +227,7 @@ def run_unit(unit, rng, ctx):
             ctx.count(f'injected_table_order:{order}')
             ctx.count(f'injected_table_index:{index}')
             jj = Jumps(tr, conversion_method=lambda transitions, minimal_residence=0, _df=df: _df.copy())
-            w3 = int(rng.choice([1, 2, 5, 10, 25, 50, 120]))
+            w3 = int(rng.choice([1, 2, 5, 10, 25, 50, 120, 0, -1, -4, -9]))  # also degenerate windows: 0 and negative
             c3 = pick_cutoff(rng, dsite)
             coll3 = Collective(jumps=jj, sites=tr.sites, lattice=tr.diff_trajectory.get_lattice(), max_steps=w3, max_dist=c3)
             a, b = check_collective(coll3, table, sys_, w3, c3, ctx, what + f' [injected table n={len(table)} w={w3}]', wit)
